@@ -53,6 +53,34 @@ ROUND5 = {
     "C20": "Also: input churn - 16 goroutines decoding from a sliding window over 96 distinct inputs through five entry points, every result compared with the reference model.",
 }
 
+# additions of validation round 6 (DESIGN.md 10.4 a6)
+CONC = ("a concurrent phase in the production build (16 goroutines call a recurring set of operations and a long list of distinct inputs back to back, every result compared with "
+        "reference-model values computed beforehand; long-lived objects used throughout), fresh processes in which 8..64 goroutines make the FIRST library calls at the same instant, "
+        "and - on a tree whose library synchronises at all - the same phases in a build that yields after every synchronisation operation (mechanically placed failpoints)")
+ROUND6 = {
+    "C02": "Also: vectors whose STORED residues sum to a value next to a multiple of 2^256 or of n, or inside [h*n + 2^256, (h+1)*2^256); Sum/Product after a recovered panic (nil entry).",
+    "C03": "Also: " + CONC + " - for the observers of distinct points.",
+    "C04": "Also: " + CONC + " - for ScalarMult and the variable-time GLV multiply on distinct points.",
+    "C05": "Also: " + CONC + "; short sequences of different operations as the first calls of a fresh process (which entry point initialises shared state first).",
+    "C06": "Also: " + CONC + " - decoders with a long churn of distinct inputs; sequences presented through ONE reused buffer (same buffer, new contents), earlier results re-read afterwards.",
+    "C07": "Also: the verifier's hash selector x digest length matrix over all 19 hash identifiers; key objects recovered, kept while more keys are recovered, then used; " + CONC + " - with more recurring keys than a small cache holds.",
+    "C08": "Also: fault-then-use - entropy reads that fail or panic (recovered) at any offset, then the same key signing sequentially and on 8 goroutines at once, compared with signatures made before the faults; " + CONC + ".",
+    "C09": "Also: the deterministic generator read into ONE buffer that the caller wipes / overwrites after every read; fault-then-use as C08.",
+    "C10": "Also: " + CONC + " - ECDH with 72 recurring peers; same-buffer-new-contents sequences for the key constructors.",
+    "C11": "Also: signatures made by the library's own signer (emitted id recovers the signer, no other id does), in every build configuration; " + CONC + ".",
+    "C12": "Also: surplus data of 256, 512, 65536 (+-1) bytes after or inside every structure; same-buffer-new-contents sequences for every parser; " + CONC + " (first use: ASN1Bytes / ParseASN1PublicKey).",
+    "C13": "Also: points whose stored coordinates or curve-equation sides are tiny (the Montgomery final-subtraction window at the point level); " + CONC + " - key objects imported before a churn of 2600 other imports and used afterwards.",
+    "C14": "Also: fault-then-use as C08 for BIP-340 signing (a pooled hash state that absorbed half an entropy block shows only in the NEXT signature); " + CONC + ".",
+    "C15": "Also: " + CONC + " - distinct tags, several of them oversize.",
+    "C16": "Also: " + CONC + " - double- and multi-scalar multiplication on distinct points per goroutine.",
+    "C17": "Also: lists of 300 / 520 / 1030 secret scalars (source-level monitor); the lookup routines under valgrind's lackey in one process (the accesses that really happen - masked vector loads count lane by lane - must not depend on the index); all three assembly-level tracers also run in every discovered build configuration (GOAMD64 levels).",
+    "C18": "Also: lists of 256..1025 terms with the receiver at 256, 257, 512, the end; same-buffer-new-contents sequences; " + CONC + ".",
+    "C19": "Also: every discovered build configuration (GOAMD64=v2/v3/v4 when they select other files) joins the cross-build transcript comparison; " + CONC + ".",
+    "C20": "Also: the recovery operation keeps its four candidate keys and uses them afterwards, against the model; fault-then-use (aborted Schnorr / ECDSA signatures, then concurrent signing).",
+}
+DISCOVERY = ("Build configurations are not a fixed list: bin/check asks the go tool which library files each candidate configuration selects (GOAMD64=v2/v3/v4, no cgo, the race tag, GO386=softfloat, "
+             "every non-platform build tag the library's own constraints mention) and runs the check in each configuration that selects files no other one builds.")
+
 PENDING_REASON = "not claimed yet: monitor under construction in this round (the technique applies; see DESIGN.md section 5)"
 
 
@@ -71,6 +99,16 @@ def main():
     for pid, add in ROUND5.items():
         if pid in CHECKS and add not in CHECKS[pid]["text"]:
             CHECKS[pid] = dict(CHECKS[pid], text=CHECKS[pid]["text"] + " " + add)
+    for pid, add in ROUND6.items():
+        if pid in CHECKS and add not in CHECKS[pid]["text"]:
+            CHECKS[pid] = dict(CHECKS[pid], text=CHECKS[pid]["text"] + " " + add)
+    for pid in CHECKS:
+        if DISCOVERY not in CHECKS[pid]["text"]:
+            CHECKS[pid] = dict(CHECKS[pid], text=CHECKS[pid]["text"] + " " + DISCOVERY)
+        if pid in ROUND6 and "concurrent phase" in ROUND6[pid] and "concurrent replay" not in CHECKS[pid]["tech"]:
+            CHECKS[pid] = dict(CHECKS[pid], tech=CHECKS[pid]["tech"] + "; concurrent replay against precomputed model results (plain and yield-instrumented builds), concurrent cold start in fresh processes")
+    if "C17" in CHECKS and "lackey" not in CHECKS["C17"]["tech"]:
+        CHECKS["C17"] = dict(CHECKS["C17"], tech=CHECKS["C17"]["tech"] + "; valgrind lackey access trace of the assembly lookups")
     if "C17" in CHECKS and "ptrace" not in CHECKS["C17"]["tech"]:
         CHECKS["C17"] = dict(CHECKS["C17"], tech=CHECKS["C17"]["tech"] + "; instruction-level trace equivalence of the production build under a ptrace single-stepper (program-counter sequence of every traced call, runtime internals stepped over)")
     checks, na = [], []
